@@ -641,10 +641,12 @@ class Aspire:
             aspire._resume_n_samples = n_samples
             aspire._resume_overrides = resume_kwargs or {}
             aspire._resume_sampler_config = sampler_config
+        if saved_sampler_type:
+            aspire._last_sampler_type = saved_sampler_type
         aspire._checkpoint_defaults = {
             "path": file_path,
             "every": 1,
-            "save_config": False,
+            "save_config": True,
             "save_flow": False,
             "saved_config": False,
             "saved_flow": False,
